@@ -127,11 +127,13 @@ RULE_C01 = ("cases = (layout, sequence of message lengths): layouts from the gen
             "multi-sector, 0-3 NULL, 0-2 lock-control, 0-2 memory-control TLVs with reserved ranges in the header, "
             "in a gap before the NDEF TLV, inside / directly after / at the end of / across the end of / beyond the "
             "data area, optional proprietary filler TLV, NDEF TLV close to the end of the data area, random previous "
-            "contents, old message short/long) and NXP product images (UL, UL-C, NTAG203/21x, UL-EV1, NTAG I2C); "
+            "contents, old message short/long; a Memory Control TLV whose reserved range starts in one sector and ends "
+            "in the next one, message or TLV stream continuing behind it) and NXP product images (UL, UL-C, NTAG203/21x, UL-EV1, NTAG I2C); "
             "lengths 0,1,253..256,capacity-1,capacity,capacity+1, lengths ending directly in front of a reserved "
             "range, random; every length 0..capacity for small layouts; distinct by memory image + lengths, "
             "non-trivial when at least one write reached the read-back oracles")
-REQUIRED_C01 = ["t2t_roundtrips", "t2t_capacity_checked", "t2t_oversize_rejected", "t2t_ref_reader_checked"]
+REQUIRED_C01 = ["t2t_roundtrips", "t2t_capacity_checked", "t2t_oversize_rejected", "t2t_ref_reader_checked",
+                "t2t_layout_sector-straddle"]
 
 
 def plan_c01(tier):
@@ -157,6 +159,12 @@ def run_c01(desc, R, rng):
             kind = "generic"
             if mode == "small-exhaustive":
                 lay = L.gen_layout(rng, cc2=rng.choice([6, 6, 7, 8, 12]), filler=False)
+            elif rng.random() < 0.012:
+                # a Memory Control TLV whose reserved range starts in one sector and ends in the next one
+                lay = None
+                while lay is None:
+                    lay = L.straddle_layout(rng, rng.choice([1024, 1024, 1024, 2048]),
+                                            place=rng.choice(["before", "before", "behind"]))
             else:
                 near_end = rng.random() < 0.06
                 lay = L.gen_layout(rng, near_end=near_end)
@@ -302,22 +310,39 @@ RULE_C02 = ("cases = (layout, old message, new message, cut point k): NDEF TLV a
             "leading NULL / control TLVs, generic tags (single and multi sector) and NTAG215/216/I2C images, old and new "
             "lengths from {0,1,5,253,254,255,256,300,capacity,random}; the uninterrupted write gives n = number of "
             "acknowledged WRITE commands, then EVERY k = 0..n is executed (tag leaves the field after the k-th WRITE) and "
-            "a fresh nfcpy reader plus the reference reader look at the memory; distinct by (image, new, k)")
+            "a fresh nfcpy reader plus the reference reader look at the memory; distinct by (image, new, k).  Class "
+            "'failed attempt(s), then retry on the same object, then cut' (the write that is interrupted is the "
+            "application's repetition of `ndef.octets = new` on the SAME tag/ndef object after 1 or 2 attempts that "
+            "ended with TagCommandError): in a failed attempt every exchange from command index j on is lost (the "
+            "command never reaches the tag, or - a quarter of the cases - the tag executes it and the answer is lost) "
+            "until the attempt has raised; j = the first WRITE (the one that invalidates the length) always, every "
+            "command index for short sequences, otherwise a random WRITE, the last WRITE and a random command; two "
+            "failed attempts (first WRITE twice / random positions); then every k = 0..n of the retry (quick tier: "
+            "every k for 'first WRITE lost', boundary + random k for the other fault positions of long writes); same "
+            "oracle: the fresh reader / reference reader see the old message, nothing, an empty or the new message")
 REQUIRED_C02 = ["t2t_cut_runs", "t2t_cut_outcome_old", "t2t_cut_outcome_new", "t2t_cut_outcome_empty",
-                "t2t_cut_straddling_layouts"]
+                "t2t_cut_straddling_layouts",
+                "t2t_c02_retry_cases", "t2t_c02_retry_cut_runs", "t2t_c02_retry_first_write_never_reached_tag",
+                "t2t_c02_retry_fault_at_later_command", "t2t_c02_retry_two_failed_attempts",
+                "t2t_c02_retry_tag_unchanged_by_failed_attempt", "t2t_c02_retry_new_3_byte_length",
+                "t2t_c02_retry_new_1_byte_length", "t2t_c02_retry_old_3_byte_length", "t2t_c02_retry_old_1_byte_length",
+                "t2t_c02_retry_outcome_old", "t2t_c02_retry_outcome_new", "t2t_c02_retry_outcome_empty"]
 
 C02_LENS = [0, 1, 5, 253, 254, 255, 256, 300]
 
 
 def plan_c02(tier):
     if tier == "quick":
-        return [{"align": a, "n": 110, "max_cc2": 80} for a in range(4)]
-    return [{"align": a, "n": 330, "max_cc2": 255, "timeout": 3000} for a in range(4)]
+        return ([{"align": a, "n": 110, "max_cc2": 80} for a in range(4)] +
+                [{"mode": "retry", "aligns": al, "n": 36, "max_cc2": 80} for al in ([0, 2], [1, 3])])
+    return ([{"align": a, "n": 330, "max_cc2": 255, "timeout": 3000} for a in range(4)] +
+            [{"mode": "retry", "aligns": [a], "n": 120, "max_cc2": 255, "timeout": 3000} for a in range(4)])
 
 
 def run_c02(desc, R, rng):
-    a = desc["align"]
+    retry = desc.get("mode") == "retry"
     for i in range(desc["n"]):
+        a = desc["aligns"][i % len(desc["aligns"])] if retry else desc["align"]
         if i % 8 == 7:
             kind = rng.choice(["ntag215", "ntag216", "i2c1k", "i2c2k"])
             mem, _old = product_layout(rng, kind, old_len=rng.choice(C02_LENS), nnull=0)
@@ -347,16 +372,218 @@ def run_c02(desc, R, rng):
         if new == r.message:
             continue
         case = {"family": FAM, "kind": kind, "mem": bytes(mem), "new": new}
-        c02_case(case, R)
+        if retry:
+            c02_retry_enumerate(case, R, rng, desc["tier"])
+        else:
+            c02_case(case, R)
 
 
 def replay_c02(case, R):
-    c02_case(case, R)
+    if case.get("faults") is not None:
+        c02_retry_case(case, R)
+    else:
+        c02_case(case, R)
 
 
 def _straddles(ndef_off, n):
     """the 3-byte length field of a long-format TLV at ndef_off spans two pages"""
     return n >= 255 and (ndef_off + 1) // 4 != (ndef_off + 3) // 4
+
+
+def _arm_fault(dev, j, flavour):
+    """from the j-th exchange (counted from now) on every exchange is lost - "cmd_lost": the command never reaches
+    the tag, "rsp_lost": the tag executes it and the answer never reaches the reader - until dev.script is reset.
+    -> dict with the number of exchanges hit and the first command hit"""
+    import nfc.clf
+    first = dev.n_commands + j
+    hit = {"n": 0, "cmd": None}
+
+    def script(n, data):
+        if n < first:
+            return None
+        if not hit["n"]:
+            hit["cmd"] = data
+        hit["n"] += 1
+        return (flavour, nfc.clf.TimeoutError)
+    dev.script = script
+    return hit
+
+
+def _c02_start(case):
+    model = build_model(case)
+    clf, dev, tag = activate(model)
+    dev.command_bound = COMMAND_BOUND
+    nd = tag.ndef if tag is not None else None
+    return model, dev, nd
+
+
+def c02_retry_enumerate(case, R, rng, tier):
+    """fault positions of the failed attempt(s) for one (image, new message), then c02_retry_case for each"""
+    new = bytes(case["new"])
+    st, v = guard(lambda: _c02_start(case))
+    ref0 = L.ref_read(bytes(case["mem"]))
+    if st == "exc" or v[2] is None or ref0.status != "ndef" or v[2].octets != ref0.message or len(new) > v[2].capacity:
+        R.count("t2t_c02_setup_skipped")
+        return
+    model, dev, nd = v
+    c0 = dev.n_commands
+    st, e = guard(lambda: setattr(nd, "octets", new))
+    cmds = [cmd for n, cmd, _rsp in dev.log if n >= c0]
+    writes = [i for i, c in enumerate(cmds) if c[:1] == b"\xA2"]
+    if st == "exc" or not writes:
+        R.count("t2t_c02_setup_skipped")
+        return
+    ncmd = len(cmds)
+    R.max("t2t_c02_retry_commands_in_attempt", ncmd)
+    fl = lambda: "rsp_lost" if rng.random() < 0.25 else "cmd_lost"      # noqa
+    sets = [([[writes[0], "cmd_lost"]], True)]
+    if ncmd <= 16 or tier != "quick" and ncmd <= 40:
+        sets += [([[j, fl()]], False) for j in range(ncmd) if j != writes[0]]
+        sets.append(([[writes[0], "rsp_lost"]], False))
+    else:
+        js = {rng.choice(writes), writes[-1], rng.randrange(ncmd)} - {writes[0]}
+        sets += [([[j, fl()]], False) for j in sorted(js)]
+    sets.append(([[writes[0], "cmd_lost"], [0 if cmds[0][:1] == b"\xA2" else writes[0], "cmd_lost"]], False))
+    sets.append(([[rng.randrange(ncmd), fl()], [rng.randrange(ncmd), fl()]], False))
+    for faults, principal in sets:
+        c = dict(case)
+        c["faults"] = faults
+        if tier == "quick" and not principal:
+            c["k_sample"] = rng.getrandbits(30)
+        c02_retry_case(c, R)
+
+
+def c02_retry_case(case, R):
+    """case: mem, kind, new, faults [[j, flavour], ...] (one failed attempt each), optional k (replay: this cut only),
+    optional k_sample (seed of the k selection for long writes)"""
+    import random
+    import nfc.tag
+    image = bytes(case["mem"])
+    new = bytes(case["new"])
+    faults = [(int(j), str(f)) for j, f in case["faults"]]
+    ref0 = L.ref_read(image)
+    if ref0.status != "ndef":
+        R.inconc("t2t c02: harness produced a layout without NDEF TLV")
+        return
+    old = ref0.message
+    info = {}
+
+    def write(nd):
+        return guard(lambda: setattr(nd, "octets", new))
+
+    def prepare():
+        """fresh tag + reader, the failed attempts -> (model, dev, nd) or None when an attempt did not fail"""
+        model, dev, nd = _c02_start(case)
+        if nd is None:
+            return None
+        info["unchanged"] = True
+        for idx, (j, flavour) in enumerate(faults):
+            hit = _arm_fault(dev, j, flavour)
+            st, e = write(nd)
+            dev.script = None
+            if st != "exc" or not isinstance(e, nfc.tag.TagCommandError) or not hit["n"]:
+                info["why"] = "attempt %d %s" % (idx, "returned normally" if st == "ok" else "raised " + exc_sig(e))
+                return None
+            if idx == 0:
+                info["first_cmd"] = hit["cmd"]
+            if bytes(model.mem) != image:
+                info["unchanged"] = False
+        return model, dev, nd
+
+    st, v = guard(prepare)
+    if st == "exc" or v is None:
+        R.count("t2t_c02_retry_fault_not_applicable")       # the fault position lies behind the end of the attempt
+        R.case(image + new + repr(faults).encode(), nontrivial=False)
+        return
+    model, dev, nd = v
+    sc0 = dev.state_changes
+    st, e = write(nd)
+    n = dev.state_changes - sc0
+    after = L.ref_read(model.mem)
+    if st == "exc":
+        R.count("t2t_c02_retry_complete_retry_raised")
+    elif after.status != "ndef" or after.message != new:
+        R.count("t2t_c02_retry_complete_retry_other_message")       # round trip, judged by C01
+    else:
+        R.count("t2t_c02_retry_complete_retry_stored_new")
+    R.count("t2t_c02_retry_cases")
+    first_is_write = (info.get("first_cmd") or b"")[:1] == b"\xA2"
+    if len(faults) > 1:
+        R.count("t2t_c02_retry_two_failed_attempts")
+    elif first_is_write and info["unchanged"]:
+        R.count("t2t_c02_retry_first_write_never_reached_tag")
+    else:
+        R.count("t2t_c02_retry_fault_at_later_command")
+    if info["unchanged"]:
+        R.count("t2t_c02_retry_tag_unchanged_by_failed_attempt")
+    R.count("t2t_c02_retry_%s" % faults[0][1])
+    R.count("t2t_c02_retry_new_%d_byte_length" % (3 if len(new) >= 255 else 1))
+    R.count("t2t_c02_retry_old_%d_byte_length" % (3 if len(old) >= 255 else 1))
+    R.max("t2t_c02_retry_n", n)
+    if case.get("k") is not None:
+        ks = [case["k"]]
+    elif case.get("k_sample") is not None and n > 24:
+        r = random.Random(case["k_sample"])
+        ks = sorted(set([0, 1, 2, 3, n - 2, n - 1, n] + [r.randrange(n + 1) for _ in range(6)]))
+    else:
+        ks = range(0, n + 1)
+    for k in ks:
+        v = prepare()
+        if v is None:
+            R.inconc("t2t c02: the failed attempts of a retry case are not reproducible (%s)" % info.get("why"))
+            return
+        model, dev, nd = v
+        dev.arm_cut(k)
+        st, e = write(nd)
+        if st == "exc" and not isinstance(e, nfc.tag.TagCommandError):
+            R.count("t2t_c02_write_other_exception")
+        if k < n and not dev.dead:
+            R.inconc("t2t c02: cut %d of %d of the retry was not reached" % (k, n))
+        R.count("t2t_c02_retry_cut_runs")
+        wit = {x: y for x, y in case.items() if x != "k_sample"}
+        wit["k"] = k
+        _c02_judge(R, model, wit, old, new, ref0, "t2t/c02/retry-after-failed-attempt/mixed/",
+                   "%d failed attempt(s) (exchanges lost from command %s on), retry on the same object cut after WRITE "
+                   "%d of %d" % (len(faults), "/".join(str(j) for j, _f in faults), k, n), "t2t_c02_retry_outcome_")
+        R.case(image + new + repr(faults).encode() + b"|%d" % k)
+    R.sample({"retry": True, "ndef_off": ref0.ndef_off, "old": len(old), "new": len(new), "faults": faults, "n": n})
+
+
+def _c02_judge(R, model, wit, old, new, ref0, sigbase, where, cprefix):
+    """what a fresh nfcpy reader and the reference reader see on the memory the cut left behind"""
+    mech = "long-length-field-straddles-pages" if _straddles(ref0.ndef_off, len(new)) else "other"
+    st, v = guard(lambda: activate(model))
+    if st == "ok" and v[2] is not None:
+        st, v = guard(lambda: (lambda nd2: None if nd2 is None else nd2.octets)(v[2].ndef))
+    elif st == "ok":
+        v = None
+    if st == "exc":
+        R.violation("t2t/c02/fresh-reader-raises/" + exc_sig(v), exc_text(v), wit)
+        seen = None
+    else:
+        seen = v
+    if seen is None:
+        R.count(cprefix + "none")
+    elif seen == b"":
+        R.count(cprefix + "empty")
+    elif seen == old:
+        R.count(cprefix + "old")
+    elif seen == new:
+        R.count(cprefix + "new")
+    else:
+        R.count(cprefix + "mixed")
+        R.violation(sigbase + mech,
+                    "%s (NDEF TLV at byte %d, old %d bytes, new %d bytes): a fresh reader sees "
+                    "%d bytes that are neither the old nor the new message" % (
+                        where, ref0.ndef_off, len(old), len(new), len(seen)), wit)
+    # independent reference reader on the raw memory
+    rr = L.ref_read(model.mem)
+    rseen = rr.message if rr.status == "ndef" else None
+    if rseen not in (None, b"", old, new):
+        R.violation(sigbase + mech + "/seen-by-reference-reader",
+                    "%s (NDEF TLV at byte %d, old %d, new %d bytes): the reference reader sees "
+                    "%d bytes that are neither the old nor the new message" % (
+                        where, ref0.ndef_off, len(old), len(new), len(rseen)), wit)
 
 
 def c02_case(case, R):
@@ -410,40 +637,7 @@ def c02_case(case, R):
         R.count("t2t_cut_runs")
         wit = dict(case)
         wit["k"] = k
-        mech = "long-length-field-straddles-pages" if _straddles(ref0.ndef_off, len(new)) else "other"
-        # fresh nfcpy reader
-        st, v = guard(lambda: activate(model))
-        if st == "ok" and v[2] is not None:
-            st, v = guard(lambda: (lambda nd2: None if nd2 is None else nd2.octets)(v[2].ndef))
-        elif st == "ok":
-            v = None
-        if st == "exc":
-            R.violation("t2t/c02/fresh-reader-raises/" + exc_sig(v), exc_text(v), wit)
-            seen = None
-        else:
-            seen = v
-        if seen is None:
-            R.count("t2t_cut_outcome_none")
-        elif seen == b"":
-            R.count("t2t_cut_outcome_empty")
-        elif seen == old:
-            R.count("t2t_cut_outcome_old")
-        elif seen == new:
-            R.count("t2t_cut_outcome_new")
-        else:
-            R.count("t2t_cut_outcome_mixed")
-            R.violation("t2t/c02/mixed/" + mech,
-                        "cut after WRITE %d of %d (NDEF TLV at byte %d, old %d bytes, new %d bytes): a fresh reader sees "
-                        "%d bytes that are neither the old nor the new message" % (
-                            k, n, ref0.ndef_off, len(old), len(new), len(seen)), wit)
-        # independent reference reader on the raw memory
-        rr = L.ref_read(model.mem)
-        rseen = rr.message if rr.status == "ndef" else None
-        if rseen not in (None, b"", old, new):
-            R.violation("t2t/c02/mixed/" + mech + "/seen-by-reference-reader",
-                        "cut after WRITE %d of %d (NDEF TLV at byte %d, old %d, new %d bytes): the reference reader sees "
-                        "%d bytes that are neither the old nor the new message" % (
-                            k, n, ref0.ndef_off, len(old), len(new), len(rseen)), wit)
+        _c02_judge(R, model, wit, old, new, ref0, "t2t/c02/mixed/", "cut after WRITE %d of %d" % (k, n), "t2t_cut_outcome_")
         R.case(image + new + b"|%d" % k)
     R.sample({"kind": case.get("kind"), "ndef_off": ref0.ndef_off, "old": len(old), "new": len(new), "n": n})
 
@@ -455,22 +649,132 @@ RULE_C03 = ("cases = (layout, operation sequence): layouts as for C01 with empha
             "the message / at the end of the data area, NDEF TLV in the last bytes of the data area, blank NXP products; "
             "operations octets=<len 1..capacity>, format(), format(wipe=0|A5h|random); for every operation the memory "
             "is diffed byte-wise against the allowed set (NDEF TLV tag byte .. end of data area minus reserved ranges, "
-            "computed by the reference reader from the image before the operation) and every acknowledged WRITE "
-            "command must intersect it; distinct by image + operations")
+            "computed by the reference reader from the image before the operation) and every WRITE command the tag "
+            "received (acknowledged or not, with the sector that was selected AT THE TAG when it arrived) must intersect "
+            "it; distinct by image + operations.  Class 'failed attempt, then retry on the same object' (this extends "
+            "the quantifier of the statement, which is universal over writes, by 'after a failed attempt': the retried "
+            "write is a write, and so is the attempt that ended with TagCommandError): the operation (octets=, "
+            "format(wipe)) is executed with every exchange from command index j on lost (command never reaches the tag "
+            "/ a third of the cases: answer never reaches the reader) until it has raised, optionally a second failed "
+            "attempt, then fault-free on the SAME tag / ndef object; memory diff and WRITE command addresses are judged "
+            "over all attempts together against the image before the first attempt; layouts: small single-sector tags "
+            "(every j), tags with 2 sectors whose message reaches into sector 1 (new message = old with a changed "
+            "window across byte 1024 / changed tail in sector 1 / all new; j = every SECTOR SELECT packet 1 and packet "
+            "2 and their neighbours, first and last commands, random others; every j for short sequences), tags with "
+            "a reserved range across the sector boundary (vf.ref.t2_layout.straddle_layout).  A lost packet 2 is the "
+            "'frame never reached the tag' reading only (see ASSUMPTIONS)")
 REQUIRED_C03 = ["t2t_c03_ops_write", "t2t_c03_ops_format", "t2t_c03_ops_format_wipe", "t2t_c03_bytes_diffed",
-                "t2t_c03_write_cmds_checked", "t2t_c03_reserved_adjacent_to_message"]
+                "t2t_c03_write_cmds_checked", "t2t_c03_reserved_adjacent_to_message",
+                "t2t_c03_retry_ops", "t2t_c03_retry_attempt_failed_then_retry_returned",
+                "t2t_c03_retry_fault_at_sector_select_packet_1", "t2t_c03_retry_fault_at_sector_select_packet_2",
+                "t2t_c03_retry_fault_at_write", "t2t_c03_retry_two_sector_message", "t2t_c03_retry_writes_in_sector_1",
+                "t2t_c03_retry_two_failed_attempts", "t2t_c03_retry_every_position_sequences"]
 
 
 def plan_c03(tier):
     if tier == "quick":
         return [{"mode": "generic", "n": 2500}, {"mode": "generic", "n": 2500}, {"mode": "near-end", "n": 4000},
-                {"mode": "products", "n": 2000}]
+                {"mode": "products", "n": 2000}, {"mode": "retry", "n": 60, "timeout": 300}]
     return [{"mode": "generic", "n": 14000, "timeout": 3000}, {"mode": "generic", "n": 14000, "timeout": 3000},
-            {"mode": "near-end", "n": 25000, "timeout": 3000}, {"mode": "products", "n": 11000, "timeout": 3000}]
+            {"mode": "near-end", "n": 25000, "timeout": 3000}, {"mode": "products", "n": 11000, "timeout": 3000},
+            {"mode": "retry", "n": 300, "timeout": 3000}, {"mode": "retry", "n": 300, "timeout": 3000}]
+
+
+def _c03_sequence(case):
+    """fault-free dry run of the (single) operation of `case` -> list of the commands of the operation"""
+    model = build_model(case)
+    clf, dev, tag = activate(model)
+    dev.command_bound = COMMAND_BOUND
+    if tag is None:
+        return None
+    name, arg = case["ops"][-1][0], case["ops"][-1][1]
+    for op in case["ops"][:-1]:
+        guard(lambda: _c03_do(tag, op[0], op[1]))
+    guard(lambda: tag.ndef)         # the fault positions count from the first command after the NDEF read
+    c0 = dev.n_commands
+    st, _res = guard(lambda: _c03_do(tag, name, arg))
+    if st == "exc":
+        return None
+    return [cmd for n, cmd, _rsp in dev.log if n >= c0]
+
+
+def _c03_do(tag, name, arg):
+    if name == "write":
+        nd = tag.ndef
+        if nd is None:
+            return "no-ndef"
+        nd.octets = bytes(arg)
+        return "written"
+    return tag.format(wipe=arg)
+
+
+def _run_c03_retry(desc, R, rng):
+    quick = desc["tier"] == "quick"
+    for i in range(desc["n"]):
+        cls = ("small", "two-sector", "two-sector", "straddle")[i % 4]
+        if cls == "small":
+            lay = L.gen_layout(rng, cc2=rng.choice([6, 8, 12, 18]), filler=False)
+        elif cls == "two-sector":
+            lay = L.gen_layout(rng, cc2=rng.choice([130, 140, 160, 200, 234, 255]), filler=False, trailing=rng.choice([0, 8, 32]),
+                               old_len=rng.choice([1030, 1100, 1300, 2040]),
+                               nctl=rng.choice([(0, 0), (0, 0), (1, 0), (0, 1), (1, 1)]))
+        else:
+            lay = None
+            while lay is None:
+                lay = L.straddle_layout(rng, 1024, place="before", behind=rng.choice([8, 17, 40, "cap"]))
+        mem = lay.mem
+        r = L.ref_read(mem)
+        cap = L.ref_capacity(r.ndef_off, r.data_end, r.reserved)
+        old = r.message
+        if cls == "small":
+            if rng.random() < 0.25 or cap < 1:
+                op = ["format", rng.choice([0, 0xA5])]
+            else:
+                op = ["write", rnd_bytes(rng, rng.randrange(1, cap + 1))]
+        else:
+            # index of the first value byte stored in sector 1
+            i1 = next((x for x, a in enumerate(r.value_addrs) if a >= 1024), None)
+            if i1 is None:
+                continue
+            x = rng.random()
+            if x < 0.45:        # a window across the sector boundary changes, same length
+                lo, hi = max(0, i1 - rng.randrange(1, 24)), min(len(old), i1 + rng.randrange(1, 24))
+                new = old[:lo] + bytes(b ^ 0x5A for b in old[lo:hi]) + old[hi:]
+            elif x < 0.8:       # the tail in sector 1 changes (first modified page in sector 1), length same or other
+                lo = min(len(old) - 1, i1 + rng.choice([0, 0, 1, 4, 8, 9, 30]))
+                ln = rng.choice([len(old), len(old), min(cap, len(old) + 9), max(lo + 1, len(old) - 7)])
+                new = old[:lo] + bytes(b ^ 0xA5 for b in old[lo:ln]) + rnd_bytes(rng, max(0, ln - len(old)))
+            else:               # everything changes
+                new = rnd_bytes(rng, rng.choice([len(old), cap, rng.randrange(i1 + 1, cap + 1)]))
+            op = ["write", new]
+        base = {"family": FAM, "kind": "generic", "mem": bytes(mem), "ops": [op]}
+        seq = _c03_sequence(base)
+        if not seq:
+            R.count("t2t_c03_retry_setup_skipped")
+            continue
+        n = len(seq)
+        sel = set()
+        for j, c in enumerate(seq):
+            if c == b"\xC2\xFF":
+                sel.update(x for x in (j - 1, j, j + 1, j + 2) if 0 <= x < n)
+        if n <= (40 if quick else 120):
+            js = list(range(n))
+            R.count("t2t_c03_retry_every_position_sequences")
+        else:
+            js = sorted(sel | set(range(2)) | set(range(n - 2, n)) | set(rng.randrange(n) for _ in range(3 if quick else 12)))
+        for j in js:
+            faults = [[j, "rsp_lost" if rng.random() < 0.33 else "cmd_lost"]]
+            if rng.random() < 0.12:
+                faults.append([rng.choice(js), "cmd_lost"])
+            c = dict(base)
+            c["ops"] = [[op[0], op[1], faults]]
+            c03_case(c, R)
 
 
 def run_c03(desc, R, rng):
     mode = desc["mode"]
+    if mode == "retry":
+        return _run_c03_retry(desc, R, rng)
     for _i in range(desc["n"]):
         if mode == "products":
             kind = rng.choice(sorted(S.PRODUCTS))
@@ -539,24 +843,55 @@ def c03_case(case, R):
     resets0 = model.sector_resets
     for oi, op in enumerate(case["ops"]):
         name, arg = op[0], op[1]
+        faults = [(int(j), str(f)) for j, f in op[2]] if len(op) > 2 and op[2] else []
         before = bytes(model.mem)
         refb = L.ref_read(before)
         model.clear_logs()
         wit = dict(case)
         wit["ops"] = case["ops"][:oi + 1]
-        if name == "write":
-            def do():
-                nd = tag.ndef
-                if nd is None:
-                    return "no-ndef"
-                nd.octets = bytes(arg)
-                return "written"
-            opname = "write"
-        else:
-            def do():
-                return tag.format(wipe=arg)
-            opname = "format" if arg is None else "format-wipe"
+
+        def do():
+            return _c03_do(tag, name, arg)
+        opname = "write" if name == "write" else ("format" if arg is None else "format-wipe")
+        # class "failed attempt(s), then retry on the same object": every attempt is part of the operation
+        failed = 0
+        if faults:
+            guard(lambda: tag.ndef)     # the application has read the tag before it writes (memory image is cached)
+        for j, flavour in faults:
+            first = dev.n_commands + j
+            hit = _arm_fault(dev, j, flavour)
+            st, res = guard(do)
+            dev.script = None
+            if hit["n"] and (st == "exc" or res is False or res == "no-ndef"):
+                failed += 1
+                cmd = hit["cmd"] or b""
+                prev = [c for n, c, _r in dev.log if n == first - 1]
+                if cmd == b"\xC2\xFF":
+                    R.count("t2t_c03_retry_fault_at_sector_select_packet_1")
+                elif len(cmd) == 4 and prev and prev[0] == b"\xC2\xFF":
+                    R.count("t2t_c03_retry_fault_at_sector_select_packet_2")
+                elif cmd[:1] == b"\xA2":
+                    R.count("t2t_c03_retry_fault_at_write")
+                else:
+                    R.count("t2t_c03_retry_fault_at_read")
+                if st == "exc":
+                    R.seen("t2t_c03_retry_attempt_exceptions", exc_sig(res))
+            else:
+                R.count("t2t_c03_retry_fault_behind_end_of_attempt")
         st, res = guard(do)
+        if faults:
+            opname_sig = opname + "/retry-after-failed-attempt"
+            R.count("t2t_c03_retry_ops")
+            if failed and st == "ok":
+                R.count("t2t_c03_retry_attempt_failed_then_retry_returned")
+            if failed > 1:
+                R.count("t2t_c03_retry_two_failed_attempts")
+            if len(before) > 1024 and refb.status == "ndef" and refb.value_addrs and refb.value_addrs[-1] >= 1024:
+                R.count("t2t_c03_retry_two_sector_message")
+            if any(sec > 0 for sec, _p, _a in model.write_cmds):
+                R.count("t2t_c03_retry_writes_in_sector_1")
+        else:
+            opname_sig = opname
         if st == "exc":
             # a raising operation is judged by C01/C16; the memory rule still holds for what it did before raising
             R.count("t2t_c03_op_raised")
@@ -605,23 +940,26 @@ def c03_case(case, R):
             if reg:
                 bad.setdefault(reg, []).append(a)
         for reg, addrs in sorted(bad.items()):
-            R.violation("t2t/c03/%s/changed-outside/%s" % (opname, reg),
+            R.violation("t2t/c03/%s/changed-outside/%s" % (opname_sig, reg),
                         "%s (%s, %s) changed %d byte(s) outside the NDEF message area, first at address %d "
                         "(%02X -> %02X); NDEF TLV at %r, data area ends at %r" % (
                             opname, kind, boundary, len(addrs), addrs[0], before[addrs[0]], after[addrs[0]],
                             refx.ndef_off, refx.data_end), wit)
-        for (sector, page, _d) in model.writes:
+        for (sector, page, acked) in model.write_cmds:
             R.count("t2t_c03_write_cmds_checked")
+            if not acked:
+                R.count("t2t_c03_write_cmds_not_acknowledged_checked")
             base = sector * 1024 + page * 4
             regs = [outside(a) for a in range(base, base + 4)]
             if all(regs):
                 sreg = regs[0] + desync
                 if term is not None and term // 4 * 4 == base:
                     sreg = "terminator-behind-data-area"
-                R.violation("t2t/c03/%s/write-command-outside/%s" % (opname, sreg),
-                            "%s (%s) sent WRITE to page %d of sector %d which lies wholly outside the NDEF message area "
-                            "(NDEF TLV at %r, data area ends at %r)" % (opname, kind, page, sector, refx.ndef_off,
-                                                                         refx.data_end), wit)
+                R.violation("t2t/c03/%s/write-command-outside/%s" % (opname_sig, sreg),
+                            "%s (%s) sent WRITE to page %d of sector %d (%s by the tag) which lies wholly outside the NDEF "
+                            "message area (NDEF TLV at %r, data area ends at %r)" % (
+                                opname, kind, page, sector, "acknowledged" if acked else "not acknowledged",
+                                refx.ndef_off, refx.data_end), wit)
         if refb.status == "ndef":
             end = (refb.value_addrs[-1] + 1) if refb.value_addrs else refb.ndef_off + 2
             ra = L.ref_read(after)
@@ -630,9 +968,9 @@ def c03_case(case, R):
                 R.count("t2t_c03_reserved_adjacent_to_message")
             if refb.data_end - refb.ndef_off <= 4:
                 R.count("t2t_c03_ndef_tlv_at_end_of_data_area")
-        if changed or model.writes:
+        if changed or model.write_cmds:
             reached = True
-    R.case(bytes(case["mem"]) + repr([(o[0], o[1] if o[0] == "format" else len(o[1])) for o in case["ops"]]).encode(),
+    R.case(bytes(case["mem"]) + repr([(o[0], o[1] if o[0] == "format" else len(o[1]), o[2:]) for o in case["ops"]]).encode(),
            nontrivial=reached)
     R.sample({"kind": kind, "ops": [(o[0], o[1] if o[0] == "format" else len(o[1])) for o in case["ops"]]})
 
@@ -653,13 +991,26 @@ RULE_C08 = ("cases = (memory image, discovery data, GET_VERSION answer, response
             "L=0..254 and 3-byte form L=0..300 (incl. the non-canonical values < 255) x value ending -3..+4 usable bytes "
             "from the end of the declared data area (every offset) x reserved ranges none/before/inside/tail/before+inside/"
             "straddle x geometries CC2 6..127 (one across the sector boundary) with 32..68 readable bytes of physical "
-            "memory behind the data area that hold a distinct pattern, same oracles")
+            "memory behind the data area that hold a distinct pattern, same oracles; plus the enumerated class 'reserved "
+            "range across a sector boundary' (vf.ref.t2_layout.straddle_layout): tags with 2 or 3 sectors, one Memory "
+            "Control TLV whose range starts below byte 1024 / 2048 and ends 1..16, 20, 33, 64 bytes behind it (every "
+            "end offset 1..16, so that a reader that continues in the wrong sector returns each of the header bytes) x "
+            "NDEF TLV in front of the range with the value ending before / directly in front of / 1..40 bytes behind "
+            "the range / filling the data area, or the TLV stream itself continuing behind the range (proprietary TLVs "
+            "up to the range, NDEF TLV directly behind it); additional outcome oracle there and on every other "
+            "multi-sector image and a sample of the single-sector ones: octets (and whether an NDEF object is found) "
+            "are independent of the identifier / internal / static lock bytes 4..11 (second differential run); the tag "
+            "model's answers to READ in sector > 0 are compared with the memory of that sector")
 REQUIRED_C08 = ["t2t_c08_outcome_ndef", "t2t_c08_outcome_tag_without_ndef", "t2t_c08_outcome_none",
                 "t2t_c08_noninterference_checked", "t2t_c08_stop_points", "t2t_c08_adversarial_responses",
                 "t2t_c08_version_variants",
                 "t2t_c08_tlv_end_cases", "t2t_c08_tlv_end_form3_len_below_255", "t2t_c08_tlv_end_memory_behind",
                 "t2t_c08_tlv_end_rsv_before", "t2t_c08_tlv_end_rsv_inside", "t2t_c08_tlv_end_fit_returned_value",
-                "t2t_c08_tlv_end_overrun_returned_tag_without_ndef"] + [
+                "t2t_c08_tlv_end_overrun_returned_tag_without_ndef",
+                "t2t_c08_straddle_cases", "t2t_c08_straddle_value_behind_range", "t2t_c08_straddle_tlv_behind_range",
+                "t2t_c08_straddle_returned_reference_value", "t2t_c08_straddle_reads_answered_from_sector>0",
+                "t2t_c08_straddle_boundary_1024", "t2t_c08_straddle_boundary_2048",
+                "t2t_c08_header_noninterference_checked"] + [
     "t2t_c08_tlv_end_form%d_off_%s" % (_f, TE.off_name(_d)) for _f in (1, 3) for _d in TE.OFFSETS]
 
 C08_BOUND = 3000        # largest fault-free evaluation of the biggest image (2 KB, read twice) stays below 400
@@ -670,10 +1021,11 @@ def plan_c08(tier):
     if tier == "quick":
         return [{"mode": "images", "n": 7000}, {"mode": "mutated", "n": 6000}, {"mode": "stop", "n": 260},
                 {"mode": "adversarial", "n": 8000}, {"mode": "tlv-end", "form": 1, "timeout": 300},
-                {"mode": "tlv-end", "form": 3, "timeout": 300}]
+                {"mode": "tlv-end", "form": 3, "timeout": 300}, {"mode": "sector-straddle", "reps": 1, "timeout": 300}]
     return ([{"mode": "images", "n": 60000, "timeout": 3000}, {"mode": "mutated", "n": 60000, "timeout": 3000},
              {"mode": "stop", "n": 2600, "timeout": 3000}, {"mode": "adversarial", "n": 70000, "timeout": 3000}]
-            + [{"mode": "tlv-end", "form": form, "part": part, "parts": 2, "timeout": 3000} for form in (1, 3) for part in (0, 1)])
+            + [{"mode": "tlv-end", "form": form, "part": part, "parts": 2, "timeout": 3000} for form in (1, 3) for part in (0, 1)]
+            + [{"mode": "sector-straddle", "reps": 6, "timeout": 3000}])
 
 
 def _rand_tlv_stream(rng, n):
@@ -823,10 +1175,82 @@ def _run_c08_tlv_end(desc, R, rng):
         R.sample({"t2t_c08_tlv_end_last_case": case["tlv_end"]})
 
 
+C08_STRADDLE_ENDS = list(range(1, 17)) + [20, 33, 64]
+C08_STRADDLE_BEHIND = {"before": [-1, 0, 1, 2, 3, 4, 8, 15, 16, 17, 40, "cap"], "behind": [0, 1, 5, 16, 40, "cap"]}
+
+
+def _run_c08_straddle(desc, R, rng):
+    """enumerated class: a reserved range that starts in one sector and ends in the next one"""
+    case = None
+    for _rep in range(desc.get("reps", 1)):
+        for boundary in (1024, 2048):
+            starts = L.straddle_starts(boundary)
+            for e in C08_STRADDLE_ENDS:
+                end = boundary + e
+                cand = [a for a in starts if end - a <= 256]
+                for place in ("before", "behind"):
+                    for behind in C08_STRADDLE_BEHIND[place]:
+                        if R.counters.get("t2t_c08_bound_hits", 0) >= C08_MAX_BOUND_HITS:
+                            return
+                        lay = None
+                        for _try in range(6):
+                            lay = L.straddle_layout(rng, boundary, start=rng.choice(cand), end=end, place=place,
+                                                    behind=behind, trailing=rng.choice([0, 4, 16, 32]),
+                                                    uid0=rng.choice([None, None, 0x04])) if cand else None
+                            if lay is not None:
+                                break
+                        if lay is None:
+                            R.count("t2t_c08_straddle_not_laid_out")
+                            continue
+                        case = {"family": FAM, "kind": "generic", "mem": bytes(lay.mem), "cls": "sector-straddle",
+                                "hdr_check": True}
+                        info = {}
+                        c08_case(case, R, info)
+                        R.count("t2t_c08_straddle_cases")
+                        R.count("t2t_c08_straddle_boundary_%d" % boundary)
+                        R.seen("t2t_c08_straddle_end_offsets", e)
+                        ref = L.ref_read(lay.mem)
+                        nbehind = sum(1 for a in ref.value_addrs if a >= end)
+                        if place == "before" and nbehind:
+                            R.count("t2t_c08_straddle_value_behind_range")
+                        if place == "behind":
+                            R.count("t2t_c08_straddle_tlv_behind_range")
+                        # observations (the verdicts are c08_case's)
+                        if info.get("outcome") == "ndef" and info.get("octets") == ref.message:
+                            R.count("t2t_c08_straddle_returned_reference_value")
+                        else:
+                            R.count("t2t_c08_straddle_returned_" + (
+                                "other_octets" if info.get("outcome") == "ndef" else str(info.get("outcome")).replace("-", "_")))
+                        # the tag model answers READ with the bytes of the sector that is selected at the tag
+                        _c08_check_sector_reads(info, R)
+    if case is not None:
+        R.sample({"t2t_c08_straddle_last_case_mem_len": len(case["mem"])})
+
+
+def _c08_check_sector_reads(info, R):
+    model, dev = info.get("model"), info.get("dev")
+    if model is None:
+        return
+    answered = [(cmd, rsp) for _n, cmd, rsp in dev.log if cmd and cmd[:1] == b"\x30" and len(cmd) == 2 and
+                isinstance(rsp, bytes) and len(rsp) == 16]
+    if len(answered) != len(model.reads):
+        R.inconc("t2t c08: READ log of the tag model and of the device differ")
+        return
+    for (cmd, rsp), (sector, page) in zip(answered, model.reads):
+        a = sector * 1024 + page * 4
+        if cmd[1] != page or bytes(rsp[:4]) != bytes(model.mem[a:a + 4]):
+            R.inconc("t2t c08: the tag model answered READ %d with bytes that are not those of sector %d" % (page, sector))
+            return
+        if sector > 0:
+            R.count("t2t_c08_straddle_reads_answered_from_sector>0")
+
+
 def run_c08(desc, R, rng):
     mode = desc["mode"]
     if mode == "tlv-end":
         return _run_c08_tlv_end(desc, R, rng)
+    if mode == "sector-straddle":
+        return _run_c08_straddle(desc, R, rng)
     n = desc["n"]
     if mode == "stop":
         return _run_c08_stop(desc, R, rng)
@@ -885,6 +1309,8 @@ def run_c08(desc, R, rng):
             if rng.random() < 0.3:
                 _c08_version(rng, case, R)
         R.count("t2t_c08_class_" + cls.replace("-", "_"))
+        if mode != "adversarial" and (len(case["mem"]) > 1024 or rng.random() < 0.15):
+            case["hdr_check"] = True
         c08_case(case, R)
 
 
@@ -1095,6 +1521,7 @@ def c08_case(case, R, info=None):
     if info is not None:
         info["outcome"] = out["outcome"]
         info["octets"] = None if out["octets"] is None else bytes(out["octets"])
+        info["model"], info["dev"] = out["model"], out["dev"]
     if adversary is not None:
         R.count("t2t_c08_adversarial_responses", len(adversary.injected))
     if case.get("injected"):
@@ -1124,6 +1551,25 @@ def c08_case(case, R, info=None):
             elif out2["outcome"] != "ndef":
                 R.violation("t2t/c08/ndef-presence-depends-on-outside-data-area",
                             "inverting bytes behind the declared data area turns the result into %s" % out2["outcome"], wit)
+        if case.get("hdr_check") and case.get("kind", "generic") == "generic" and len(mem) >= data_end:
+            # non-interference, header side: the identifier / internal / static lock bytes 4..11 lie outside the
+            # data area and do not take part in NDEF detection (discovery uses them as opaque identifier only)
+            mem3 = bytearray(mem)
+            for a in range(4, 12):
+                mem3[a] ^= 0xFF
+            out3 = _c08_eval(case, bytes(mem3), _Quiet(), wit)
+            R.count("t2t_c08_header_noninterference_checked")
+            if len(mem) > 1024:
+                R.count("t2t_c08_header_noninterference_multi_sector")
+            if out3["outcome"] == "ndef" and out3["octets"] != out["octets"]:
+                R.violation("t2t/c08/octets-from-header-pages",
+                            "octets (%d bytes) change when only the identifier / internal / static lock bytes 4..11 are "
+                            "inverted: the message value was read from the header pages, outside the data area" % len(
+                                out["octets"]), wit)
+            elif out3["outcome"] != "ndef":
+                R.violation("t2t/c08/ndef-presence-depends-on-header-pages",
+                            "inverting the identifier / internal / static lock bytes 4..11 turns the result into %s"
+                            % out3["outcome"], wit)
     R.case(mem + repr(sorted((k, v) for k, v in case.items() if k not in ("mem", "family"))).encode(),
            nontrivial=out["outcome"] != "not-discovered")
     if out["outcome"] == "ndef":
